@@ -71,6 +71,7 @@ BAD_OPTS = {
     'bad_type_stop_signal': ('stop_signal', 'TERM!!'),
     'bad_rlimit': ('rlimit_bogus', 5),
     'bad_stream': ('stdout_stream', {'filename': '/tmp/x'}),
+    'bad_value_stream_class': ('stdout_stream.class', 'no.such.StreamClass'),
 }
 
 
